@@ -146,6 +146,23 @@ class InducingPointKernel(Kernel):
 
         return cp
 
+    def __getitem__(self, index):
+        if len(self.batch_shape) == 0:
+            return self
+        index = index if isinstance(index, tuple) else (index,)
+        new_kernel = copy.deepcopy(self)
+        # cached inducing matrices carry the batch shape of the kernel that is being indexed
+        new_kernel._clear_cache()
+        new_kernel.base_kernel = self.base_kernel[index]
+        inducing_points = self.inducing_points
+        if inducing_points.dim() > 2:
+            # inducing points with batch dimensions of their own are indexed as part of the kernel's batch shape;
+            # inducing points shared by the whole batch are not batch parameters and stay as they are
+            batch_shape = torch.broadcast_shapes(self.batch_shape, inducing_points.shape[:-2])
+            inducing_points = inducing_points.expand(*batch_shape, *inducing_points.shape[-2:])
+            new_kernel.inducing_points.data = inducing_points[index].clone()
+        return new_kernel
+
     def prediction_strategy(self, train_inputs, train_prior_dist, train_labels, likelihood):
         # Allow for fast variances
         return exact_prediction_strategies.SGPRPredictionStrategy(
